@@ -191,6 +191,8 @@ def write_replay(pid, payload):
 
 
 def write_evidence(pid, tier, seed, level, coverage, assumptions, wall, violations):
+    if os.environ.get("VERIF_NO_EVIDENCE"):      # development runs against scratch trees only
+        return None
     os.makedirs(os.path.join(ROOT, "evidence"), exist_ok=True)
     ev = dict(property_id=pid, tier=tier, seed=seed, level=level, coverage=jsonable(coverage),
               assumptions=assumptions, wall_s=round(wall, 2), violations=violations)
